@@ -56,16 +56,48 @@ type bits uint8
 
 const (
 	P bits = 1
-	H bits = 2
+	H bits = 2 // HP: points to method-local memory that directly holds P values
+	HH bits = 4 // points to method-local memory that holds H/HH values (a load yields H|HH, not P)
 )
 
 // ---------------------------------------------------------------- whitelist
+
+// wlEntry: Arg0 marks callees that DO write their receiver / first argument (setters, Write,
+// AddCert, ...): they are harmless only while that operand is not receiver-derived.
+type wlEntry struct{ Prefix, Reason string }
+
+var arg0Writers = []string{
+	"(*text/template.Template).Funcs",
+	"(*encoding/json.Encoder).Encode",
+	"(*github.com/goccy/go-json.Encoder).Encode",
+	"(hash.Hash).Write",
+	"(io.Writer).Write",
+	"(*bytes.Buffer).Write",
+	"(*strings.Builder).Write",
+	"(*net/url.URL).",
+	"(net/url.Values).",
+	"(net/http.Header).",
+	"(*github.com/go-viper/mapstructure/v2.Decoder).Decode",
+	"(*sync.RWMutex).Lock",
+	"(*sync.RWMutex).Unlock",
+	"(*sync.Mutex).Lock",
+	"(*sync.Mutex).Unlock",
+	"(*crypto/x509.CertPool).",
+	"(*github.com/go-jose/go-jose/v4.SignerOptions).",
+	"(*net/http.Request).",
+	"(io.Reader).Read",
+	"(io.ReadCloser).",
+	"(io.Closer).Close",
+	"sort.",
+	"(*github.com/jellydator/ttlcache/v3.Cache[",
+	"(*github.com/goccy/go-json.Decoder).Decode",
+}
 
 // Calls into code that is not analysed (no SSA body, or outside the module and
 // not descended into) that receive a receiver-derived pointer-like argument are
 // writes unless the callee matches one of these prefixes.  Every entry carries
 // the reason it is considered read-only with respect to its arguments.
-var whitelist = []struct{ Prefix, Reason string }{
+var whitelist = []wlEntry{
 	{"fmt.", "formatting functions only read their operands (reflection based, no Set calls)"},
 	{"errors.", "errors.Is/As/Unwrap/New/Join read the chain; As writes only to its target, which callers allocate locally"},
 	{"strings.", "pure functions over strings / read-only over slices"},
@@ -130,7 +162,7 @@ var whitelist = []struct{ Prefix, Reason string }{
 	{"(*sync.RWMutex).Unlock", "synchronisation primitive"},
 	{"(*sync.Mutex).Lock", "synchronisation primitive"},
 	{"(*sync.Mutex).Unlock", "synchronisation primitive"},
-	{"(*crypto/x509.CertPool).", "CertPool is only read after construction (AddCert is not reachable: would be reported through module code)"},
+	{"(*crypto/x509.CertPool).", "AddCert mutates the pool it is called on (reported if that pool is receiver-derived) and only reads the certificate"},
 	{"(*crypto/x509.Certificate).Verify", "reads the certificate and the options"},
 	{"(*crypto/x509.Certificate).Equal", "read-only"},
 	{"crypto/x509.", "parsers / read-only helpers"},
@@ -162,13 +194,51 @@ var whitelist = []struct{ Prefix, Reason string }{
 	{"(github.com/dadrus/heimdall/internal/x/errorchain.", "error chain builders allocate new chain links; WithErrorContext stores the mechanism pointer without writing through it"},
 	{"(*github.com/dadrus/heimdall/internal/x/errorchain.", "error chain builders allocate new chain links; WithErrorContext stores the mechanism pointer without writing through it"},
 	{"github.com/dadrus/heimdall/internal/x/errorchain.", "error chain constructors"},
+	{"(*github.com/go-jose/go-jose/v4.JSONWebKeySet).Key", "linear read-only lookup returning copies of the matching keys"},
+	{"(*github.com/jellydator/ttlcache/v3.Cache[", "the cache stores the reference it is given and never writes through it (values are []byte snapshots)"},
+	{"(github.com/dadrus/httpsig.Signer).Sign", "reads the signer's configuration (key, components, ttl, label: all set by NewSigner) and updates only the per-request message; read from signer.go of the pinned version"},
+	{"github.com/dadrus/httpsig.MessageFromRequest", "wraps the per-request *http.Request"},
+	{"github.com/goccy/go-json.Unmarshal", "copies its input into a private, NUL-terminated buffer before decoding; writes only into the destination, which callers allocate locally"},
+	{"github.com/goccy/go-json.NewDecoder", "wraps a per-request reader"},
+	{"(*github.com/goccy/go-json.Decoder).Decode", "writes only into the destination, which callers allocate locally"},
+	{"encoding/json.Unmarshal", "reads its input; writes only into the destination, which callers allocate locally"},
+	{"gopkg.in/yaml.v3.Unmarshal", "reads its input; writes only into the destination, which callers allocate locally"},
+	{"(*github.com/google/cel-go/cel.Env).Compile", "cel.Env is immutable after NewEnv/Extend; Compile/Check/Program build new Ast/Program values (lazily built checker state is guarded by sync.Once inside cel-go)"},
+	{"(*github.com/google/cel-go/cel.Env).Check", "as Compile"},
+	{"(*github.com/google/cel-go/cel.Env).Program", "as Compile"},
+	{"(*github.com/google/cel-go/cel.Ast).", "read-only accessors of a freshly compiled Ast"},
+	{"(*github.com/google/cel-go/cel.Issues).", "read-only accessors of a freshly created Issues value"},
+	{"(crypto/x509/pkix.Name).String", "value receiver, formats the name"},
+	{"(*math/big.Int).String", "formats the number"},
 	{"(*github.com/Masterminds/sprig", "template functions"},
 	{"(*github.com/youmark/pkcs8", "parsers"},
 }
 
-func whitelisted(name string) (bool, string) {
+// fresh: unanalysed functions whose result is newly allocated memory holding copies of the
+// elements of their arguments (a store into the result does not hit the argument's memory).
+var fresh = []string{"maps.Clone", "slices.Clone", "bytes.Clone", "strings.", "fmt.Sprint", "slices.Collect", "maps.Keys", "maps.Values"}
+
+func isFresh(name string) bool {
+	for _, f := range fresh {
+		if strings.HasPrefix(name, f) {
+			return true
+		}
+	}
+
+	return false
+}
+
+func whitelisted(name string, argIdx int, b bits) (bool, string) {
 	for _, w := range whitelist {
 		if strings.HasPrefix(name, w.Prefix) {
+			if argIdx == 0 && b&P != 0 {
+				for _, a0 := range arg0Writers {
+					if strings.HasPrefix(name, a0) {
+						return false, ""
+					}
+				}
+			}
+
 			return true, w.Reason
 		}
 	}
@@ -184,6 +254,10 @@ type Effect struct {
 	Detail string   `json:"detail"` // field / callee
 	Pos    string   `json:"pos"`    // file:line relative to the repo
 	Path   []string `json:"path"`   // call chain from the root method
+	CType  string   `json:"ctype"`  // type of the written object (canonical: underlying type)
+
+	ctype types.Type // type of the object written (struct / slice / map / pointee) or of the escaping argument
+	arg   bool       // ctype is an argument handed to unanalysed code (filter by reachability from the argument)
 }
 
 func (e Effect) key() string { return e.Kind + "|" + e.Fn + "|" + e.Detail + "|" + e.Pos }
@@ -192,6 +266,10 @@ type Method struct {
 	Name    string   `json:"name"`
 	Effects []Effect `json:"effects"`
 	Reach   int      `json:"reach"` // number of function contexts analysed from this root
+	// tainted writes dropped because the written object's type does not occur in the receiver's type structure
+	Filtered int `json:"type_filtered"`
+	filtered []Effect
+	why      map[string]string
 }
 
 type Row struct {
@@ -200,6 +278,10 @@ type Row struct {
 	Kind    string   `json:"kind"`
 	Methods []Method `json:"methods"`
 	Embeds  []string `json:"embeds"` // named module types reachable through the fields of the mechanism struct
+	Top     bool     `json:"top"`    // the receiver reaches an empty interface: type filter disabled
+	TopWhy  string   `json:"top_why,omitempty"`
+	NTypes  int      `json:"ntypes"`
+	Any     []string `json:"any,omitempty"` // empty-interface locations reachable from the receiver
 }
 
 // ---------------------------------------------------------------- analysis
@@ -215,7 +297,7 @@ type ctxKey string
 type summary struct {
 	effects map[string]Effect
 	result  bits
-	paramH  []bool // callee stored derived data into memory reachable from parameter i
+	paramH  []bits // callee stored derived data into memory reachable from parameter i (H and/or HH)
 	done    bool
 	fnres   *ssa.Function
 	fnfv    []bits
@@ -234,6 +316,13 @@ type analyzer struct {
 	contexts   int
 	verbose    bool
 	descendAll bool
+
+	anyAsserted   map[string]types.Type      // types asserted on receiver-derived empty interfaces
+	rt            *rtset                     // type structure reachable from the mechanism type under analysis
+	hitCache      map[string]bool
+	hitGen        map[string]int
+	closuresBySig map[string][]*ssa.Function // module closures and functions by signature
+	runtimeTypes  []types.Type               // every type of the program that is converted to an interface
 }
 
 func pointerLike(t types.Type) bool { return ptrLike(t, map[types.Type]bool{}) }
@@ -273,13 +362,30 @@ func ptrLike(t types.Type, seen map[types.Type]bool) bool {
 	}
 }
 
-func mask(b bits, t types.Type) bits {
+// mask removes taints a value of type t cannot carry: no taint at all for pointer-free types; no P
+// for types that cannot point into the receiver's type structure (type safety).
+func (a *analyzer) mask(b bits, t types.Type) bits {
 	if b == 0 || t == nil {
 		return b
 	}
 
 	if !pointerLike(t) {
 		return 0
+	}
+
+	if b&P != 0 && a.rt != nil && !a.rt.top {
+		k := t.String()
+
+		hit, ok := a.hitCache[k]
+		if !ok || a.hitGen[k] != a.rt.gen {
+			hit = a.rt.directHit(t, map[string]bool{}, 0)
+			a.hitCache[k] = hit
+			a.hitGen[k] = a.rt.gen
+		}
+
+		if !hit {
+			b &^= P
+		}
 	}
 
 	return b
@@ -366,7 +472,7 @@ func (a *analyzer) analyse(fn *ssa.Function, params []absval, fv []bits, depth i
 
 	s := a.sums[k]
 	if s == nil {
-		s = &summary{effects: map[string]Effect{}, paramH: make([]bool, len(fn.Params))}
+		s = &summary{effects: map[string]Effect{}, paramH: make([]bits, len(fn.Params))}
 		a.sums[k] = s
 		a.contexts++
 	}
@@ -385,7 +491,7 @@ func (a *analyzer) analyse(fn *ssa.Function, params []absval, fv []bits, depth i
 	for i, p := range fn.Params {
 		if i < len(params) {
 			v := params[i]
-			v.b = mask(v.b, p.Type())
+			v.b = a.mask(v.b, p.Type())
 			fa.vals[p] = v
 		}
 	}
@@ -411,12 +517,31 @@ func (a *analyzer) analyse(fn *ssa.Function, params []absval, fv []bits, depth i
 		}
 	}
 
-	for i, p := range fn.Params {
-		if fa.vals[p].b&H != 0 && (i >= len(params) || params[i].b&H == 0) {
-			if !s.paramH[i] {
-				s.paramH[i] = true
-				a.changed = true
+	if tr := os.Getenv("EFFECTS_TRACE"); tr != "" && strings.Contains(fn.String(), tr) {
+		fmt.Printf("TRACE %s ctx=%s\n", fn.String(), k)
+
+		for _, b := range fn.Blocks {
+			for _, ins := range b.Instrs {
+				if v, ok := ins.(ssa.Value); ok && fa.vals[v].b != 0 {
+					fmt.Printf("   %d  %s = %s   : %s\n", fa.vals[v].b, v.Name(), ins.String(), v.Type())
+				}
 			}
+		}
+
+		for _, p := range fn.Params {
+			fmt.Printf("   param %s %d\n", p.Name(), fa.vals[p].b)
+		}
+	}
+
+	for i, p := range fn.Params {
+		var had bits
+		if i < len(params) {
+			had = params[i].b
+		}
+
+		if gained := fa.vals[p].b & (H | HH) &^ had; gained&^s.paramH[i] != 0 {
+			s.paramH[i] |= gained
+			a.changed = true
 		}
 	}
 
@@ -448,7 +573,7 @@ func (fa *fnAnalysis) get(v ssa.Value) absval {
 }
 
 func (fa *fnAnalysis) set(v ssa.Value, nv absval) {
-	nv.b = mask(nv.b, v.Type())
+	nv.b = fa.a.mask(nv.b, v.Type())
 	old := fa.vals[v]
 	merged := absval{b: old.b | nv.b, fn: old.fn, fv: old.fv}
 
@@ -496,7 +621,7 @@ func eqBits(a, b []bits) bool {
 }
 
 // addH marks the memory v points into as holding receiver-derived pointers.
-func (fa *fnAnalysis) addH(v ssa.Value, seen map[ssa.Value]bool) {
+func (fa *fnAnalysis) addH(v ssa.Value, lvl bits, seen map[ssa.Value]bool) {
 	if v == nil || seen[v] {
 		return
 	}
@@ -509,46 +634,64 @@ func (fa *fnAnalysis) addH(v ssa.Value, seen map[ssa.Value]bool) {
 	}
 
 	old := fa.vals[v]
-	if old.b&H == 0 {
-		old.b |= H
+	if old.b|lvl != old.b {
+		old.b |= lvl
 		fa.vals[v] = old
 		fa.changed = true
 	}
 
 	switch x := v.(type) {
 	case *ssa.FieldAddr:
-		fa.addH(x.X, seen)
+		fa.addH(x.X, lvl, seen)
 	case *ssa.IndexAddr:
-		fa.addH(x.X, seen)
+		fa.addH(x.X, lvl, seen)
 	case *ssa.Slice:
-		fa.addH(x.X, seen)
+		fa.addH(x.X, lvl, seen)
 	case *ssa.ChangeType:
-		fa.addH(x.X, seen)
+		fa.addH(x.X, lvl, seen)
 	case *ssa.Convert:
-		fa.addH(x.X, seen)
+		fa.addH(x.X, lvl, seen)
 	case *ssa.MakeInterface:
-		fa.addH(x.X, seen)
+		fa.addH(x.X, lvl, seen)
 	case *ssa.ChangeInterface:
-		fa.addH(x.X, seen)
+		fa.addH(x.X, lvl, seen)
 	case *ssa.TypeAssert:
-		fa.addH(x.X, seen)
+		fa.addH(x.X, lvl, seen)
 	case *ssa.Phi:
 		for _, e := range x.Edges {
-			fa.addH(e, seen)
+			fa.addH(e, lvl, seen)
 		}
 	case *ssa.UnOp:
 		if x.Op == token.MUL {
-			fa.addH(x.X, seen)
+			fa.addH(x.X, HH, seen)
 		}
 	case *ssa.Extract:
-		fa.addH(x.Tuple, seen)
+		fa.addH(x.Tuple, lvl, seen)
 	case *ssa.Lookup:
-		fa.addH(x.X, seen)
+		fa.addH(x.X, HH, seen)
 	}
 }
 
-func (fa *fnAnalysis) effect(kind, detail string, pos token.Pos) {
-	e := Effect{Kind: kind, Fn: fnName(fa.fn), Detail: detail, Pos: fa.a.pos(pos)}
+// holdLevel: the taint a memory cell acquires when a value with taint b is stored into it.
+func holdLevel(b bits) bits {
+	var l bits
+	if b&P != 0 {
+		l |= H
+	}
+
+	if b&(H|HH) != 0 {
+		l |= HH
+	}
+
+	return l
+}
+
+func (fa *fnAnalysis) effect(kind, detail string, pos token.Pos, ctype types.Type, arg bool) {
+	e := Effect{Kind: kind, Fn: fnName(fa.fn), Detail: detail, Pos: fa.a.pos(pos), ctype: ctype, arg: arg}
+	if ctype != nil {
+		e.CType = canon(ctype)
+	}
+
 	if _, ok := fa.sum.effects[e.key()]; !ok {
 		fa.sum.effects[e.key()] = e
 		fa.a.changed = true
@@ -653,7 +796,22 @@ func (fa *fnAnalysis) instr(ins ssa.Instruction) {
 	case *ssa.SliceToArrayPointer:
 		fa.set(x, absval{b: fa.get(x.X).b})
 	case *ssa.TypeAssert:
-		fa.set(x, fa.get(x.X))
+		v := fa.get(x.X)
+		fa.set(x, v)
+
+		if it, ok := x.X.Type().Underlying().(*types.Interface); ok && it.NumMethods() == 0 && v.b != 0 {
+			if _, isIface := x.AssertedType.Underlying().(*types.Interface); !isIface {
+				if _, known := fa.a.anyAsserted[x.AssertedType.String()]; !known {
+					fa.a.anyAsserted[x.AssertedType.String()] = x.AssertedType
+				}
+
+				if fa.a.rt != nil && len(fa.a.rt.hasAny) > 0 && !fa.a.rt.seen[types.Unalias(x.AssertedType).String()] {
+					fa.a.rt.walk(x.AssertedType, "asserted on a receiver-derived empty interface")
+					fa.a.rt.gen++
+					fa.a.changed = true
+				}
+			}
+		}
 	case *ssa.Extract:
 		fa.set(x, absval{b: fa.get(x.Tuple).b})
 	case *ssa.Range:
@@ -695,18 +853,20 @@ func (fa *fnAnalysis) instr(ins ssa.Instruction) {
 
 		if g := baseGlobal(x.Addr); g != nil {
 			if !isInit(fa.fn) {
-				fa.effect("GlobalWrite", g.Pkg.Pkg.Name()+"."+g.Name(), x.Pos())
+				fa.effect("GlobalWrite", g.Pkg.Pkg.Name()+"."+g.Name(), x.Pos(), nil, false)
 			}
 
 			return
 		}
 
 		if addr.b&P != 0 {
-			fa.effect("Store", fieldName(x.Addr), x.Pos())
+			fa.effect("Store", fieldName(x.Addr), x.Pos(), containerOf(x.Addr), false)
 		}
 
-		if val.b != 0 && addr.b&P == 0 {
-			fa.addH(x.Addr, map[ssa.Value]bool{})
+		if addr.b&P == 0 {
+			if lvl := holdLevel(val.b); lvl != 0 {
+				fa.addH(x.Addr, lvl, map[ssa.Value]bool{})
+			}
 		}
 
 		if val.fn != nil {
@@ -716,19 +876,19 @@ func (fa *fnAnalysis) instr(ins ssa.Instruction) {
 	case *ssa.MapUpdate:
 		m := fa.get(x.Map)
 		if g := globalMap(x.Map); g != nil && !isInit(fa.fn) {
-			fa.effect("GlobalWrite", g.Pkg.Pkg.Name()+"."+g.Name()+"[k]", x.Pos())
+			fa.effect("GlobalWrite", g.Pkg.Pkg.Name()+"."+g.Name()+"[k]", x.Pos(), nil, false)
 		}
 
 		if m.b&P != 0 {
-			fa.effect("MapUpdate", fieldName(x.Map), x.Pos())
+			fa.effect("MapUpdate", fieldName(x.Map), x.Pos(), x.Map.Type(), false)
 		}
 
-		if (fa.get(x.Value).b|fa.get(x.Key).b) != 0 && m.b&P == 0 {
-			fa.addH(x.Map, map[ssa.Value]bool{})
+		if lvl := holdLevel(fa.get(x.Value).b | fa.get(x.Key).b); lvl != 0 && m.b&P == 0 {
+			fa.addH(x.Map, lvl, map[ssa.Value]bool{})
 		}
 	case *ssa.Send:
-		if fa.get(x.X).b != 0 && fa.get(x.Chan).b&P == 0 {
-			fa.addH(x.Chan, map[ssa.Value]bool{})
+		if lvl := holdLevel(fa.get(x.X).b); lvl != 0 && fa.get(x.Chan).b&P == 0 {
+			fa.addH(x.Chan, lvl, map[ssa.Value]bool{})
 		}
 	case *ssa.Call:
 		fa.call(x, &x.Call, x.Pos())
@@ -793,7 +953,11 @@ func (fa *fnAnalysis) loadFrom(addr absval) absval {
 	}
 
 	if addr.b&H != 0 {
-		b |= P | H
+		b |= P
+	}
+
+	if addr.b&HH != 0 {
+		b |= H | HH
 	}
 
 	return absval{b: b}
@@ -833,7 +997,7 @@ func (fa *fnAnalysis) call(res ssa.Value, c *ssa.CallCommon, pos token.Pos) {
 	var anyTaint bits
 
 	for i, av := range args {
-		anyTaint |= mask(av.b, argVals[i].Type())
+		anyTaint |= fa.a.mask(av.b, argVals[i].Type())
 	}
 
 	setRes := func(v absval) {
@@ -847,7 +1011,7 @@ func (fa *fnAnalysis) call(res ssa.Value, c *ssa.CallCommon, pos token.Pos) {
 		switch b.Name() {
 		case "append":
 			if len(args) > 0 && args[0].b&P != 0 {
-				fa.effect("AppendInto", fieldName(argVals[0]), pos)
+				fa.effect("AppendInto", fieldName(argVals[0]), pos, argVals[0].Type(), false)
 			}
 
 			var r bits
@@ -856,28 +1020,32 @@ func (fa *fnAnalysis) call(res ssa.Value, c *ssa.CallCommon, pos token.Pos) {
 			}
 
 			if len(args) > 1 && args[1].b != 0 {
-				r |= H | (args[1].b & P) // elements copied into the (possibly new) backing array
+				// elements are copied into the (possibly new) backing array: loading an element of a P or H
+				// slice yields P, of an HH slice H|HH
+				lvl := holdLevel(fa.loadFrom(args[1]).b)
+				r |= lvl
+
 				if len(args) > 0 && args[0].b&P == 0 {
-					fa.addH(argVals[0], map[ssa.Value]bool{})
+					fa.addH(argVals[0], lvl, map[ssa.Value]bool{})
 				}
 			}
 
 			setRes(absval{b: r})
 		case "copy":
 			if len(args) > 0 && args[0].b&P != 0 {
-				fa.effect("CopyInto", fieldName(argVals[0]), pos)
+				fa.effect("CopyInto", fieldName(argVals[0]), pos, argVals[0].Type(), false)
 			}
 
 			if len(args) > 1 && args[1].b != 0 && args[0].b&P == 0 {
-				fa.addH(argVals[0], map[ssa.Value]bool{})
+				fa.addH(argVals[0], holdLevel(fa.loadFrom(args[1]).b), map[ssa.Value]bool{})
 			}
 		case "delete":
 			if len(args) > 0 && args[0].b&P != 0 {
-				fa.effect("Delete", fieldName(argVals[0]), pos)
+				fa.effect("Delete", fieldName(argVals[0]), pos, argVals[0].Type(), false)
 			}
 		case "clear":
 			if len(args) > 0 && args[0].b&P != 0 {
-				fa.effect("Clear", fieldName(argVals[0]), pos)
+				fa.effect("Clear", fieldName(argVals[0]), pos, argVals[0].Type(), false)
 			}
 		default:
 			setRes(absval{})
@@ -912,6 +1080,19 @@ func (fa *fnAnalysis) call(res ssa.Value, c *ssa.CallCommon, pos token.Pos) {
 		} else if v := fa.get(c.Value); v.fn != nil {
 			callees = []*ssa.Function{v.fn}
 			fvs = [][]bits{v.fv}
+		} else if sig, ok := c.Value.Type().Underlying().(*types.Signature); ok {
+			// a function value of unknown identity: any module closure or function of this signature;
+			// if the value comes from receiver-reachable memory its captured variables are considered
+			// receiver-reachable too
+			for _, fn := range fa.a.closuresBySig[sig.String()] {
+				fv := make([]bits, len(fn.FreeVars))
+				for i := range fv {
+					fv[i] = v.b
+				}
+
+				callees = append(callees, fn)
+				fvs = append(fvs, fv)
+			}
 		}
 	}
 
@@ -965,8 +1146,8 @@ func (fa *fnAnalysis) call(res ssa.Value, c *ssa.CallCommon, pos token.Pos) {
 		}
 
 		for i, h := range s.paramH {
-			if h && i < len(argVals) {
-				fa.addH(argVals[i], map[ssa.Value]bool{})
+			if h != 0 && i < len(argVals) {
+				fa.addH(argVals[i], h, map[ssa.Value]bool{})
 			}
 		}
 	}
@@ -1039,32 +1220,36 @@ func (fa *fnAnalysis) unknown(name string, c *ssa.CallCommon, args []absval, arg
 		rb |= av.b
 	}
 
+	if isFresh(name) && rb != 0 {
+		// a copy: same contents in fresh memory
+		nb := rb & (H | HH)
+		if rb&P != 0 {
+			nb |= H
+		}
+
+		rb = nb
+	}
+
 	setRes(absval{b: rb})
 
-	if anyTaint&(P|H) == 0 {
+	if anyTaint == 0 {
 		return
 	}
 
 	// only P arguments can be written through to receiver memory
-	var hot []string
-
 	for i, av := range args {
-		if mask(av.b, argVals[i].Type())&P != 0 {
-			hot = append(hot, fieldName(argVals[i]))
+		if fa.a.mask(av.b, argVals[i].Type()) == 0 {
+			continue
 		}
+
+		if wl, reason := whitelisted(name, i, fa.a.mask(av.b, argVals[i].Type())); wl {
+			fa.a.usedWL[name] = reason
+
+			continue
+		}
+
+		fa.effect("UnknownCall", name+" <- "+fieldName(argVals[i]), pos, argVals[i].Type(), true)
 	}
-
-	if len(hot) == 0 {
-		return
-	}
-
-	if ok, reason := whitelisted(name); ok {
-		fa.a.usedWL[name] = reason
-
-		return
-	}
-
-	fa.effect("UnknownCall", name+" <- "+strings.Join(hot, ","), pos)
 }
 
 // implementations: class-hierarchy resolution of an interface method call over the named
@@ -1110,6 +1295,270 @@ func (a *analyzer) implementations(c *ssa.CallCommon) []*ssa.Function {
 	return out
 }
 
+
+// ---------------------------------------------------------------- type-based filter
+//
+// A write can only hit memory reachable from the receiver if the written object has a type
+// that occurs in the type structure reachable from the receiver type (Go is type safe apart
+// from package unsafe, which the module uses only for string<->[]byte views).  The set is
+// closed under fields, elements, pointees; an interface contributes every type of the
+// program that is ever converted to an interface and implements it; a function type
+// contributes the captured variables of every module closure of that signature.  The empty
+// interface makes the set universal ("top") and disables the filter for that root.
+
+func canon(t types.Type) string {
+	t = types.Unalias(t)
+	if _, ok := t.Underlying().(*types.Interface); ok {
+		return t.String()
+	}
+
+	return t.Underlying().String()
+}
+
+func containerOf(addr ssa.Value) types.Type {
+	switch x := addr.(type) {
+	case *ssa.FieldAddr:
+		if p, ok := x.X.Type().Underlying().(*types.Pointer); ok {
+			return p.Elem()
+		}
+	case *ssa.IndexAddr:
+		if p, ok := x.X.Type().Underlying().(*types.Pointer); ok {
+			return p.Elem() // array
+		}
+
+		return x.X.Type() // slice
+	}
+
+	if p, ok := addr.Type().Underlying().(*types.Pointer); ok {
+		return p.Elem()
+	}
+
+	return addr.Type()
+}
+
+type rtset struct {
+	top    bool
+	why    string
+	hasAny []string // empty-interface locations reachable from the receiver
+	canon  map[string]bool
+	conc   []types.Type // concrete types that may sit behind interfaces
+	seen   map[string]bool
+	a      *analyzer
+	whyIn  map[string]string
+	leaves map[string]string
+	gen    int // bumped whenever the set grows after construction
+}
+
+func (a *analyzer) reachTypes(root types.Type) *rtset {
+	rt := &rtset{canon: map[string]bool{}, seen: map[string]bool{}, a: a, leaves: map[string]string{}}
+	if a.verbose {
+		rt.whyIn = map[string]string{}
+	}
+
+	rt.walk(root, root.String())
+
+	return rt
+}
+
+func (rt *rtset) walk(t types.Type, from string) {
+	if rt.top {
+		return
+	}
+
+	t = types.Unalias(t)
+	k := t.String()
+
+	if rt.seen[k] {
+		return
+	}
+
+	rt.seen[k] = true
+	if !rt.canon[canon(t)] {
+		rt.canon[canon(t)] = true
+		if rt.whyIn != nil {
+			rt.whyIn[canon(t)] = from
+		}
+	}
+
+	switch u := t.Underlying().(type) {
+	case *types.Basic:
+	case *types.Pointer:
+		rt.walk(u.Elem(), from)
+	case *types.Slice:
+		rt.walk(u.Elem(), from)
+	case *types.Array:
+		rt.walk(u.Elem(), from)
+	case *types.Chan:
+		rt.walk(u.Elem(), from)
+	case *types.Map:
+		rt.walk(u.Key(), from)
+		rt.walk(u.Elem(), from)
+	case *types.Struct:
+		ext := isExternal(t)
+
+		if reason, leaf := immutableLeaf[t.String()]; leaf {
+			rt.leaves[t.String()] = reason
+
+			return
+		}
+
+		for i := 0; i < u.NumFields(); i++ {
+			if ext && !u.Field(i).Exported() {
+				// module code cannot navigate into unexported fields of other modules' types; code of
+				// that module can, and calls into it with receiver-derived arguments are UnknownCall effects
+				continue
+			}
+
+			rt.walk(u.Field(i).Type(), from+"."+u.Field(i).Name())
+		}
+	case *types.Signature:
+		for _, fn := range rt.a.closuresBySig[u.String()] {
+			for _, fv := range fn.FreeVars {
+				rt.walk(fv.Type(), from+"(closure "+fn.Name()+")")
+			}
+		}
+	case *types.Interface:
+		if u.NumMethods() == 0 {
+			// the dynamic type is unknown.  Module code can only write such an object after a type
+			// assertion; every type asserted on a receiver-derived empty interface is added to the
+			// set after the analysis (analyzer.anyAsserted).  Unanalysed code receiving it is an
+			// UnknownCall effect.
+			rt.hasAny = append(rt.hasAny, from)
+
+			return
+		}
+
+		for _, c := range rt.a.runtimeTypes {
+			if types.Implements(c, u) {
+				rt.conc = append(rt.conc, c)
+				rt.walk(c, from+"{"+c.String()+"}")
+			}
+		}
+	case *types.TypeParam:
+		rt.top = true
+		rt.why = from + " type parameter"
+	}
+}
+
+// immutableLeaf: types of other modules whose values are immutable by contract once constructed.
+// The type itself stays in the set (a field store by module code is still reported) but its
+// fields are not followed, so that e.g. []byte or url.URL do not count as receiver-reachable
+// merely because a parsed certificate contains them.
+var immutableLeaf = map[string]string{
+	"crypto/x509.Certificate": "parsed certificates are never mutated by crypto/x509 and are shared read-only " +
+		"(heimdall obtains them from x509.ParseCertificate / the PEM key store and only reads them)",
+	"github.com/go-jose/go-jose/v4.JSONWebKey": "JWK values are built once from key-store entries (keystore.Entry.JWK) or decoded from a " +
+		"JWKS response and afterwards only read, marshalled or handed to go-jose for verification/signing",
+}
+
+func isExternal(t types.Type) bool {
+	n, ok := t.(*types.Named)
+
+	return ok && n.Obj().Pkg() != nil && !strings.HasPrefix(n.Obj().Pkg().Path(), module)
+}
+
+// mayHit: can an object of type t (written directly), or an argument of type t handed to
+// unanalysed code, be or reach memory of the receiver's type structure?
+func (rt *rtset) mayHit(e Effect) bool {
+	if rt.top || e.ctype == nil {
+		return true
+	}
+
+	if !e.arg {
+		return rt.canon[canon(e.ctype)]
+	}
+
+	return rt.argMayHit(e.ctype, map[string]bool{}, 0)
+}
+
+// directHit: can a value of type t itself be (or, for structs and arrays, directly contain) a
+// pointer to an object of the receiver's type structure?
+func (rt *rtset) directHit(t types.Type, seen map[string]bool, depth int) bool {
+	t = types.Unalias(t)
+	if seen[t.String()] || depth > 8 {
+		return false
+	}
+
+	seen[t.String()] = true
+
+	switch u := t.Underlying().(type) {
+	case *types.Basic:
+		return u.Kind() == types.UnsafePointer
+	case *types.Pointer:
+		return rt.canon[canon(u.Elem())]
+	case *types.Slice, *types.Map, *types.Chan:
+		return rt.canon[canon(t)]
+	case *types.Array:
+		return rt.directHit(u.Elem(), seen, depth+1)
+	case *types.Struct:
+		for i := 0; i < u.NumFields(); i++ {
+			if pointerLike(u.Field(i).Type()) && rt.directHit(u.Field(i).Type(), seen, depth+1) {
+				return true
+			}
+		}
+
+		return false
+	case *types.Interface:
+		if u.NumMethods() == 0 {
+			return true
+		}
+
+		for _, c := range rt.conc {
+			if types.Implements(c, u) {
+				return true
+			}
+		}
+
+		return false
+	default:
+		return true
+	}
+}
+
+func (rt *rtset) argMayHit(t types.Type, seen map[string]bool, depth int) bool {
+	t = types.Unalias(t)
+	if seen[t.String()] || depth > 8 {
+		return false
+	}
+
+	seen[t.String()] = true
+
+	switch u := t.Underlying().(type) {
+	case *types.Basic:
+		return u.Kind() == types.UnsafePointer
+	case *types.Pointer:
+		return rt.canon[canon(u.Elem())] || rt.argMayHit(u.Elem(), seen, depth+1)
+	case *types.Slice:
+		return rt.canon[canon(t)] || rt.argMayHit(u.Elem(), seen, depth+1)
+	case *types.Map:
+		return rt.canon[canon(t)] || rt.argMayHit(u.Elem(), seen, depth+1) || rt.argMayHit(u.Key(), seen, depth+1)
+	case *types.Array:
+		return rt.argMayHit(u.Elem(), seen, depth+1)
+	case *types.Struct:
+		for i := 0; i < u.NumFields(); i++ {
+			if pointerLike(u.Field(i).Type()) && rt.argMayHit(u.Field(i).Type(), seen, depth+1) {
+				return true
+			}
+		}
+
+		return false
+	case *types.Interface:
+		if u.NumMethods() == 0 {
+			return true
+		}
+
+		for _, c := range rt.conc {
+			if types.Implements(c, u) {
+				return true
+			}
+		}
+
+		return false
+	default:
+		return true
+	}
+}
+
 // ---------------------------------------------------------------- driver
 
 func main() {
@@ -1117,6 +1566,7 @@ func main() {
 	out := flag.String("out", "", "Coq output file")
 	jsonOut := flag.String("json", "", "JSON output file")
 	verbose := flag.Bool("v", false, "verbose")
+	whyType := flag.String("why", "", "print how this canonical type gets into each receiver's type structure")
 	flag.Parse()
 
 	cfg := &packages.Config{
@@ -1126,9 +1576,7 @@ func main() {
 			"GOWORK=off"),
 	}
 
-	pkgs, err := packages.Load(cfg, "./internal/rules/mechanisms/...", "./internal/rules/endpoint/...",
-		"./internal/handler/...", "./internal/heimdall/...", "./internal/cache/...", "./internal/keyholder/...",
-		"./internal/truststore/...", "./internal/keystore/...")
+	pkgs, err := packages.Load(cfg, "./...")
 	if err != nil {
 		fmt.Fprintln(os.Stderr, "load:", err)
 		os.Exit(2)
@@ -1155,6 +1603,7 @@ func main() {
 	a := &analyzer{
 		prog: prog, fset: prog.Fset, repo: *repo, sums: map[ctxKey]*summary{}, inprog: map[ctxKey]bool{},
 		implCache: map[string][]*ssa.Function{}, usedWL: map[string]string{}, verbose: *verbose,
+		anyAsserted: map[string]types.Type{}, hitCache: map[string]bool{}, hitGen: map[string]int{},
 	}
 
 	// named types of the module (non-test, non-mock) for class-hierarchy resolution
@@ -1175,6 +1624,38 @@ func main() {
 	}
 
 	sort.Slice(a.modTypes, func(i, j int) bool { return a.modTypes[i].String() < a.modTypes[j].String() })
+
+	// closures and functions of the module by signature (targets of calls through function values)
+	a.closuresBySig = map[string][]*ssa.Function{}
+
+	for fn := range ssautil.AllFunctions(prog) {
+		if fn.Blocks == nil || !inModule(fn) || fn.Synthetic != "" && fn.Parent() == nil && fn.Object() == nil {
+			continue
+		}
+
+		if p := fn.Package(); p != nil && strings.HasSuffix(p.Pkg.Path(), "/mocks") {
+			continue
+		}
+
+		if fn.Parent() == nil && fn.Signature.Recv() != nil {
+			continue // methods are reached through method values / interfaces only (bound closures are synthetic)
+		}
+
+		k := fn.Signature.String()
+		a.closuresBySig[k] = append(a.closuresBySig[k], fn)
+	}
+
+	for _, l := range a.closuresBySig {
+		sort.Slice(l, func(i, j int) bool { return l[i].String() < l[j].String() })
+	}
+
+	for _, t := range prog.RuntimeTypes() {
+		if _, isIface := t.Underlying().(*types.Interface); !isIface {
+			a.runtimeTypes = append(a.runtimeTypes, t)
+		}
+	}
+
+	sort.Slice(a.runtimeTypes, func(i, j int) bool { return a.runtimeTypes[i].String() < a.runtimeTypes[j].String() })
 
 	var rows []Row
 
@@ -1226,6 +1707,22 @@ func main() {
 			}
 
 			row := Row{Pkg: kd.Pkg, Type: n, Kind: kd.Kind, Embeds: embedded(t.Type())}
+			rt := a.reachTypes(types.NewPointer(t.Type()))
+			if *whyType != "" {
+				if rt.whyIn == nil {
+					fmt.Fprintln(os.Stderr, "-why needs -v")
+				}
+
+				fmt.Printf("WHY %s.%s: %q in set=%v via %s\n", kd.Pkg, n, *whyType, rt.canon[*whyType], rt.whyIn[*whyType])
+			}
+
+			a.rt = rt
+			a.sums = map[ctxKey]*summary{}
+			a.implCache = map[string][]*ssa.Function{}
+			row.Top = rt.top
+			row.TopWhy = rt.why
+			row.Any = rt.hasAny
+			row.NTypes = len(rt.canon)
 			ms := prog.MethodSets.MethodSet(types.NewPointer(t.Type()))
 			_ = recv
 
@@ -1260,7 +1757,25 @@ func main() {
 
 				m := Method{Name: sel.Obj().Name(), Reach: a.contexts - before}
 				for _, e := range s.effects {
+					if !rt.mayHit(e) {
+						m.Filtered++
+
+						if *verbose {
+							m.filtered = append(m.filtered, e)
+						}
+
+						continue
+					}
+
 					m.Effects = append(m.Effects, e)
+
+					if rt.whyIn != nil && e.ctype != nil {
+						if m.why == nil {
+							m.why = map[string]string{}
+						}
+
+						m.why[e.key()] = rt.whyIn[canon(e.ctype)]
+					}
 				}
 
 				sort.Slice(m.Effects, func(i, j int) bool { return m.Effects[i].key() < m.Effects[j].key() })
@@ -1282,10 +1797,16 @@ func main() {
 	if *verbose {
 		for _, r := range rows {
 			for _, m := range r.Methods {
-				fmt.Printf("%s.%s.%s reach=%d effects=%d\n", r.Pkg, r.Type, m.Name, m.Reach, len(m.Effects))
+				fmt.Printf("%s.%s.%s reach=%d effects=%d filtered=%d top=%v %s\n", r.Pkg, r.Type, m.Name, m.Reach, len(m.Effects),
+					m.Filtered, r.Top, r.TopWhy)
+
+				for _, e := range m.filtered {
+					fmt.Printf("    (filtered) %-11s %s  %s  @%s  [%s]\n", e.Kind, e.Fn, e.Detail, e.Pos, e.CType)
+				}
 
 				for _, e := range m.Effects {
-					fmt.Printf("    %-11s %s  %s  @%s  via %s\n", e.Kind, e.Fn, e.Detail, e.Pos, strings.Join(e.Path, " > "))
+					fmt.Printf("    %-11s %s  %s  @%s  via %s\n        [%s in receiver type structure via %s]\n", e.Kind, e.Fn, e.Detail, e.Pos,
+						strings.Join(e.Path, " > "), e.CType, m.why[e.key()])
 				}
 			}
 		}
